@@ -197,6 +197,9 @@ def registry():
     add('Identity', 'transform', lambda: T.IdentityTransform(), S, atoms=['std', 'std~alt'])
     add('PointwiseAffine/scalar', 'transform', lambda: T.PointwiseAffineTransform(shift=0.5, scale=2.0), S, atoms=['std', 'std~alt'])
     add('PointwiseAffine', 'transform', lambda: T.PointwiseAffineTransform(shift=torch.tensor([0.5, -1.0, 0.0, 2.0]), scale=torch.tensor([2.0, 0.5, -1.5, 1.0])), S, atoms=['std', 'std~alt'])
+    # buffers held in a different float dtype from the data (float64 statistics, float32 inputs): evaluation must not re-type them
+    add('PointwiseAffine/float64_buffers', 'transform', lambda: T.PointwiseAffineTransform(shift=torch.tensor([0.5, -1.0, 0.0, 2.0], dtype=torch.float64),
+                                                                                              scale=torch.tensor([2.0, 0.5, -1.5, 1.0], dtype=torch.float64)), S)
     add('Exp', 'transform', lambda: T.Exp(), S, atoms=['std', 'std~alt'])
     add('Tanh', 'transform', lambda: T.Tanh(), S, atoms=['std', 'std~alt'])
     add('LogTanh', 'transform', lambda: T.LogTanh(cut_point=1), S, atoms=['std', 'wide'])
@@ -276,6 +279,10 @@ def registry():
     add('StandardNormal/ctx', 'dist', lambda: D.StandardNormal([F4]), S, ctx=(CTX,), tier='thorough')
     add('DiagonalNormal', 'dist', lambda: D.DiagonalNormal([F4]), S, calls=['log_prob'])
     add('ConditionalDiagonalNormal', 'dist', lambda: D.ConditionalDiagonalNormal([F4], context_encoder=nn.Linear(CTX, 2 * F4)), S, ctx=(CTX,))
+    # the DEFAULT (identity) context encoder: the distribution's parameters are views of the caller's context tensor; one draw per
+    # context row is where `repeat_rows` returns a view instead of a copy
+    add('ConditionalDiagonalNormal/identity_encoder', 'dist', lambda: D.ConditionalDiagonalNormal([F4]), S, ctx=(2 * F4,),
+        calls=['log_prob', 'sample', 'sample1', 'sample_and_log_prob', 'sample_and_log_prob1'])
     add('ConditionalIndependentBernoulli', 'dist', lambda: D.ConditionalIndependentBernoulli([F4], context_encoder=nn.Linear(CTX, F4)), S, ctx=(CTX,), domain='binary')
     add('MADEMoG', 'dist', lambda: D.MADEMoG(F4, 8, CTX, num_blocks=1, num_mixture_components=2), S, ctx=(CTX,))
     add('MADEMoG/random_mask', 'dist', lambda: D.MADEMoG(F4, 8, CTX, num_blocks=2, num_mixture_components=2, use_residual_blocks=False, random_mask=True), S, ctx=(CTX,), random_ctor=True)
@@ -284,6 +291,8 @@ def registry():
     add('Flow/small+embedding', 'flow', lambda: _flow_small(True), S, ctx=(CTX,), random_ctor=True)
     add('Flow/norm_layers', 'flow', _flow_norm, S, batch_stats=True, random_ctor=True)
     add('Flow/conditional_base', 'flow', _flow_cond_base, S, ctx=(CTX,))
+    add('Flow/identity_encoder_base', 'flow', lambda: FL.Flow(T.PointwiseAffineTransform(shift=0.5, scale=2.0), D.ConditionalDiagonalNormal([F4])), S, ctx=(2 * F4,),
+        calls=['log_prob', 'sample', 'sample1', 'sample_and_log_prob1', 'transform_to_noise'])
     add('SimpleRealNVP', 'flow', lambda: FL.SimpleRealNVP(F4, 8, num_layers=2, num_blocks_per_layer=1), S, random_ctor=True)
     add('SimpleRealNVP/bn', 'flow', lambda: FL.SimpleRealNVP(F4, 8, num_layers=2, num_blocks_per_layer=1, batch_norm_within_layers=True, batch_norm_between_layers=True), S, batch_stats=True, random_ctor=True)
     add('SimpleRealNVP/volume_preserving', 'flow', lambda: FL.SimpleRealNVP(F4, 8, num_layers=2, num_blocks_per_layer=1, use_volume_preserving=True), S, tier='thorough')
